@@ -116,7 +116,7 @@ def tunnel_scenarios(tier):
                         origins={('10.0.0.2', 443): (lambda up=up: RawOrigin(greeting=up, finally_='close'))},
                         dns={'t.test': '10.0.0.2'}, kinds='ARS', horizon=3000,
                         features={'role': 'tunnel', 'flags': fname, 'c2u': b'abcd', 'u2c': u2c, 'upstream_closes_first': True,
-                                  'client_behaviour': cname,
+                                  'client_behaviour': cname, **({'_bound': 1} if un == 's64' else {}),
                                   '_expect_c': ACK + u2c, '_expect_eof': True}))
     # the CLIENT finishes first: it uploads far more than the socket buffers hold and closes at once, while the
     # upstream drains slowly -- every uploaded byte must still reach the upstream
@@ -204,7 +204,7 @@ def http_scenarios(tier):
                     clients=[dict(script=[('send', two), ('wait_recv', len(r1) + len(r2)), ('wait_idle',), ('close',)])],
                     origins={('10.0.0.1', 80): (lambda pk=pk, n=len(two): RawOrigin(after={n + 20: list(pk)}))},
                     dns={'h.test': '10.0.0.1'}, kinds='ARS', horizon=3000,
-                    features={'role': 'http', 'flags': fname, 'response': 'two_pipelined', '_expect_c': r1 + r2}))
+                    features={'role': 'http', 'flags': fname, 'response': 'two_pipelined', '_expect_c': r1 + r2, '_bound': 1}))
     return out
 
 
